@@ -47,7 +47,7 @@ IsFingerprint(s) == Len(s) = 40 /\ IsLowerHex(s)
 (* signature entries: a JSON value abstracted to container kind + field classes *)
 SigVals == {"absent", "good", "upper", "short", "long", "nonstr"}
 HdrVals == {"absent", "good", "odd", "empty", "upper", "nonhex", "nonstr"}
-FpVals  == {"absent", "good", "short", "long", "upper", "nonstr", "falsy"}      \* falsy: present but "", null, 0, [] ...
+FpVals  == {"absent", "good", "short", "long", "short_even", "long_even", "upper", "nonstr", "falsy"}      \* falsy: present but "", null, 0, [] ...
 Containers == {"dict", "list", "str", "null", "int"}
 IsRawEntry(e) == e.c = "dict" /\ e.sig = "good" /\ e.hdr = "absent" /\ e.fp = "absent" /\ ~e.extra
 IsGpgEntry(e) == e.c = "dict" /\ e.sig = "good" /\ e.hdr = "good" /\ e.fp \in {"absent", "good"} /\ ~e.extra
